@@ -31,10 +31,12 @@ type fakeWriteStream struct {
 	sendIn  chan struct{} // stream.Send has been entered
 	recvC   chan recvItem // what the next stream.Recv returns
 	recvIn  chan struct{} // stream.Recv has been entered
+	lastReq *proto.WriteRequest
 }
 
 func (f *fakeWriteStream) Context() context.Context { return f.ctx }
-func (f *fakeWriteStream) Send(*proto.WriteRequest) error {
+func (f *fakeWriteStream) Send(req *proto.WriteRequest) error {
+	f.lastReq = req
 	f.sendIn <- struct{}{}
 	return <-f.sendRes
 }
@@ -53,7 +55,7 @@ type exitMsg struct {
 
 // runStreamCase: events  s<f>:<0|1> | r<payload> | e | x | c<f> ; a final x is always part of the case.
 // c<f>: the context passed to Send for request f is cancelled (per-request timeout) while the request is pending.
-func runStreamCase(events []string) string {
+func runStreamCase(events []string, srv *wdbServer) string {
 	ctx, cancel := context.WithCancel(context.Background())
 	defer cancel()
 	fs := &fakeWriteStream{ctx: ctx, sendRes: make(chan error, 1), sendIn: make(chan struct{}, 1),
@@ -95,6 +97,9 @@ func runStreamCase(events []string) string {
 			s = "err?" + r.err.Error()
 		}
 		got[r.f] = append(got[r.f], s)
+		if srv != nil && r.err == nil {
+			srv.delivered[r.f] = r.r
+		}
 	}
 	collect := func() {
 		for {
@@ -123,12 +128,19 @@ func runStreamCase(events []string) string {
 			sctx, scancel := context.WithCancel(context.Background())
 			cancels[id] = scancel
 			defer scancel()
+			req := &proto.WriteRequest{}
+			if srv != nil {
+				req = srv.requestFor(id)
+			}
 			go func() {
-				r, err := sw.Send(sctx, &proto.WriteRequest{})
+				r, err := sw.Send(sctx, req)
 				results <- sres{id, r, err}
 			}()
 			select {
 			case <-fs.sendIn:
+				if srv != nil && f[1] == "1" {
+					srv.receive(id, fs.lastReq) // the request has reached the server
+				}
 			case <-expired():
 				expiredWaits.Add(1)
 				return timeout("send")
@@ -141,6 +153,12 @@ func runStreamCase(events []string) string {
 			if ev[0] == 'r' {
 				p, _ := strconv.Atoi(ev[1:])
 				it = recvItem{r: &proto.WriteResponse{}}
+				if srv != nil {
+					// the server resumes: it applies the oldest request it has not answered yet and answers it
+					if resp := srv.applyNext(); resp != nil {
+						it = recvItem{r: resp}
+					}
+				}
 				payload[it.r] = p
 			}
 			select {
